@@ -51,6 +51,7 @@ type scheduler struct {
 	pools       map[*value][]value
 	chanSeq     int
 	timerFires  int
+	timerResets int
 }
 
 type mutexState struct {
@@ -91,6 +92,7 @@ func (s *scheduler) reset(w *Worker) {
 	s.pools = map[*value][]value{}
 	s.chanSeq = 0
 	s.timerFires = 0
+	s.timerResets = 0
 }
 
 func (s *scheduler) newG() *goroutine {
